@@ -88,6 +88,7 @@ CHECKS = {
             {"module": "rueidis", "scenario": "cluster", "variant": "change", "quick": 1000, "thorough": 100000},
             {"module": "rueidis", "scenario": "cluster", "variant": "faults", "quick": 600, "thorough": 60000},
             {"module": "rueidis", "scenario": "cluster", "variant": "askpair", "quick": 700, "thorough": 70000},
+            {"module": "rueidis", "scenario": "cluster", "variant": "gapfill", "quick": 600, "thorough": 60000},
         ],
         "expected_probes": ["redirect-replies-sent", "ask-redirect", "changing-topology"],
         "components": {"real": REAL, "stubs": STUBS},
